@@ -523,6 +523,11 @@ class IOLoop(Configurable):
                 # (If we neither cancel nor wait for the task, a warning
                 # will be logged).
                 assert future_cell["future"] is not None
+                if future_cell["future"].done():
+                    # The callback added in run() is about to stop the loop.
+                    # Calling stop() here as well would leave that callback
+                    # queued, and it would stop the loop the next time it runs.
+                    return
                 if not future_cell["future"].cancel():
                     self.stop()
 
